@@ -49,13 +49,13 @@ func (c *ChunkReader) Read(p []byte) (int, error) {
 
 // Item is the canonical rendering of one delivered sequence.
 type Item struct {
-	Kind  string  `json:"k"`
-	Runes []int64 `json:"r,omitempty"`
-	Inter []int64 `json:"i,omitempty"`
-	Final int64   `json:"f,omitempty"`
+	Kind  string    `json:"k"`
+	Runes []int64   `json:"r,omitempty"`
+	Inter []int64   `json:"i,omitempty"`
+	Final int64     `json:"f,omitempty"`
 	PS    [][]int64 `json:"ps,omitempty"`
-	DP    []int64 `json:"dp,omitempty"`
-	Data  []int64 `json:"d,omitempty"`
+	DP    []int64   `json:"dp,omitempty"`
+	Data  []int64   `json:"d,omitempty"`
 }
 
 func runes(rs []rune) []int64 {
@@ -71,6 +71,7 @@ func runes(rs []rune) []int64 {
 type Result struct {
 	Items          []Item
 	ClusterProblem string
+	SegProblem     string // consecutive Prints are not the cluster segmentation of their text (meaningful for a single read)
 	EOFs           int
 	AfterEOF       int
 	Closed         bool
@@ -97,9 +98,30 @@ func Run(rd io.Reader, finish bool, timeout time.Duration) Result {
 				res.Panic = fmt.Sprint(r)
 			}
 		}()
+		// consecutive Prints: when everything was buffered by one read they must be exactly
+		// uniseg's segmentation of the run (checked for runs of valid UTF-8 only)
+		var printRun []string
+		endRun := func() {
+			whole := strings.Join(printRun, "")
+			if len(printRun) > 0 && utf8.ValidString(whole) && res.SegProblem == "" {
+				var want []string
+				gr := uniseg.NewGraphemes(whole)
+				for gr.Next() {
+					want = append(want, gr.Str())
+				}
+				if strings.Join(want, "\x00") != strings.Join(printRun, "\x00") {
+					res.SegProblem = fmt.Sprintf("text %q delivered as %q, its clusters are %q", whole, printRun, want)
+				}
+			}
+			printRun = nil
+		}
+		defer endRun()
 		for seq := range p.Next() {
 			if res.EOFs > 0 {
 				res.AfterEOF++
+			}
+			if _, isPrint := seq.(ansi.Print); !isPrint {
+				endRun()
 			}
 			switch s := seq.(type) {
 			case ansi.EOF:
@@ -109,6 +131,7 @@ func Run(rd io.Reader, finish bool, timeout time.Duration) Result {
 				continue
 			case ansi.Print:
 				g := s.Grapheme
+				printRun = append(printRun, g)
 				if uniseg.GraphemeClusterCount(g) != 1 {
 					res.ClusterProblem = fmt.Sprintf("Print %q is not one cluster", g)
 				} else if w := uniseg.StringWidth(g); w != s.Width {
